@@ -107,7 +107,7 @@ def main():
                     elif op == 'check_syntax':
                         rec['result'] = {'ok': bool(o.check_syntax())}
                     elif op == 'cnl_to_json':
-                        rec['result'] = {'ok': json.loads(json.dumps(o.cnl_to_json()))}
+                        rec['result'] = {'ok': json.loads(norm(json.dumps(o.cnl_to_json(), sort_keys=True)))}
                     else:
                         rec['result'] = {'error': 'bad-op'}
         except Exception as e:  # noqa
